@@ -23,6 +23,9 @@ type C12Case struct {
 	Min     float64   `json:"min,omitempty"`
 	HasMax  bool      `json:"has_max,omitempty"`
 	Max     float64   `json:"max,omitempty"`
+	// Sorted: hand the library the sample in ascending order (weights attached)
+	// with Sample.Sorted set.
+	Sorted bool `json:"sorted,omitempty"`
 }
 
 type C12BW struct {
@@ -51,6 +54,20 @@ func (c *C12Case) kde() *stats.KDE {
 	k := &stats.KDE{Sample: stats.Sample{Xs: append([]float64{}, c.Xs...)}, Kernel: stats.KDEKernel(c.Kernel), Bandwidth: c.H}
 	if c.Weights != nil {
 		k.Sample.Weights = append([]float64{}, c.Weights...)
+	}
+	if c.Sorted {
+		idx := make([]int, len(c.Xs))
+		for i := range idx {
+			idx[i] = i
+		}
+		sort.SliceStable(idx, func(a, b int) bool { return c.Xs[idx[a]] < c.Xs[idx[b]] })
+		for j, i := range idx {
+			k.Sample.Xs[j] = c.Xs[i]
+			if c.Weights != nil {
+				k.Sample.Weights[j] = c.Weights[i]
+			}
+		}
+		k.Sample.Sorted = true
 	}
 	if c.HasMin || c.HasMax {
 		k.BoundaryMin, k.BoundaryMax = math.Inf(-1), math.Inf(1)
@@ -326,10 +343,22 @@ func c12Check(c *C12Case, r *core.Rec) {
 	// E-hist on the KDE value itself: its exported fields may be changed between
 	// calls; a used KDE that is then reconfigured must answer like a fresh one.
 	probe := []float64{lo - 0.3*c.H, lo + 0.37*(hi-lo+c.H), hi + 0.9*c.H}
-	for step := 0; step < 4; step++ {
+	for step := 0; step < 5; step++ {
 		used := *k // value copy carries whatever the library cached inside
 		alt := *c
 		switch step {
+		case 4:
+			// the caller rewrites the sample values in place (reflected about the middle)
+			alt.Xs = make([]float64, len(c.Xs))
+			alt.Sorted = false
+			used.Sample.Sorted = false
+			for i, x := range used.Sample.Xs {
+				used.Sample.Xs[i] = lo + hi - x
+			}
+			copy(alt.Xs, used.Sample.Xs)
+			if c.Weights != nil {
+				alt.Weights = append([]float64{}, used.Sample.Weights...)
+			}
 		case 0:
 			alt.Kernel = (c.Kernel + 1) % 3
 			used.Kernel = stats.KDEKernel(alt.Kernel)
@@ -447,8 +476,13 @@ func c12Run(c *core.Ctx) {
 	dists := []float64{0, 0.5, 10}
 	cs := &C12Case{}
 	run := func() {
+		cs.Sorted = false
 		r.Case("kde", cs)
 		r.Try(func() { c12Check(cs, r) })
+		cs.Sorted = true
+		r.Case("kde", cs)
+		r.Try(func() { c12Check(cs, r) })
+		cs.Sorted = false
 	}
 	for _, xs := range samples {
 		if len(xs) > 3 && !c.Thorough() && len(xs) != 10 {
@@ -521,7 +555,7 @@ func c12Run(c *core.Ctx) {
 			}
 		}
 	}
-	r.Bound("kde", fmt.Sprintf("%d samples x weights x 3 kernels x 4 bandwidths x (1 + 3 + 3 + 9) boundary configurations", len(samples)))
+	r.Bound("kde", fmt.Sprintf("%d samples x weights x 3 kernels x 4 bandwidths x (1 + 3 + 3 + 9) boundary configurations x {as given, ascending with Sorted set}", len(samples)))
 	bc := &C12BW{}
 	for _, xs := range samples {
 		if !c.Mine() {
